@@ -107,7 +107,8 @@ def replay (h : Hist) (n : Nat) : Nat → Prog → List Ev → Outcome → Outco
             | none => false
           if m = e.method && Header.canon hd = Header.canon e.hdr && (dl.isSome || callerDl) = e.deadline then
             let ans : OriginAns := match e.outcome, h.reply n e.k with
-              | "resp", some rp => .resp rp.resp e.t1 (rp.bodyFail < 0 || rp.resp.body.isEmpty)
+              -- (a body that fails part way, or ends before its declared length, cannot be serialised: nothing is stored)
+              | "resp", some rp => .resp rp.resp e.t1 ((rp.bodyFail < 0 || rp.resp.body.isEmpty) && !rp.short)
               | _, _ => .err e.t1
             replay h n fuel (k ans) rest o
           else mism
